@@ -334,6 +334,8 @@ package grpcgcp
 //@   ensures [C04.gcppicker-not-tf] $ret1 != balancer.ErrTransientFailure
 //@   ensures [C02.place-delta] $ret1 == nil ==> scRef != nil && (old(isa(scRef)) ==> scRef.streamsCnt == wrap32s(old(scRef.streamsCnt) + 1)) && othersKeepStreams(scRef) && $ret0.Done != nil
 //@   ensures [C02.place-delta-none] $ret1 != nil ==> othersKeepStreams(nil)
+// the call is placed on the connection of the slot that was chosen (and counted) for it, read under the balancer lock
+//@   ensures [C01,C02,C09 placed-on-chosen] $ret1 == nil ==> scRef != nil && $ret0.SubConn == scRef.subConn
 //@ func (p *gcpPicker) Pick$1
 //@   captures scRef != nil && p != nil && ctx != nil && len(p.scRefs) > 0 && (hasGCPCtx ==> gcpCtx != nil)
 //@   ensures [C02.done-delta] scRef.streamsCnt == wrap32s(old(scRef.streamsCnt) - 1) && othersKeepStreams(scRef)
